@@ -626,9 +626,10 @@ fn drop_tables(
         &opts.visible_seqno,
     )?;
 
+    // NOTE: The drop is already published at this point, so a failing version GC
+    // must not fail the operation (and skip marking the dropped files as deleted)
     if let Err(e) = version_history_lock.maintenance(&opts.config.path, opts.mvcc_gc_watermark) {
-        log::error!("Manifest maintenance failed: {e:?}");
-        return Err(e);
+        log::warn!("Version GC failed: {e:?}");
     }
 
     drop(version_history_lock);
